@@ -47,7 +47,32 @@ impl Stats {
         }
     }
 
+    /// Input-shape probes: how often the rarer plan shapes were actually run.
+    fn absorb_plan_shape(&mut self, plan: &Plan) {
+        let mut bump = |k: &str| *self.probes.entry(k.to_owned()).or_insert(0) += 1;
+        if plan.features.len() >= 2 && plan.features.windows(2).all(|w| w[0].name == w[1].name) {
+            bump("plan:same_named_features");
+        }
+        let scs = || plan.features.iter().flat_map(|f| f.scenarios.iter().chain(f.rules.iter().flat_map(|r| r.scenarios.iter())));
+        if scs().filter(|s| s.display.is_some()).count() >= 2 {
+            bump("plan:same_named_scenarios");
+        }
+        if plan.features.iter().any(|f| f.positionless) {
+            bump("plan:positionless_features");
+        }
+        if scs().any(|s| s.steps.len() >= 2 && s.steps[..s.steps.len() - 1].iter().any(|t| t.text == s.steps[s.steps.len() - 1].text)) {
+            bump("plan:repeated_step_in_scenario");
+        }
+        if plan.features.is_empty() {
+            bump("plan:no_feature_at_all");
+        }
+        if plan.behaviours.values().flatten().any(|b| b.eager) {
+            bump("plan:eager_panic_planned");
+        }
+    }
+
     pub fn absorb_history(&mut self, plan: &Plan, h: &History) {
+        self.absorb_plan_shape(plan);
         self.runs += 1;
         *self.ends.entry(format!("{:?}", h.end)).or_insert(0) += 1;
         self.sim_ns += u128::from(h.stats.max_clock_ns);
@@ -246,6 +271,7 @@ impl Stats {
     }
 
     pub fn absorb_c(&mut self, plan: &Plan, ch: &crate::worldc::CHistory) {
+        self.absorb_plan_shape(plan);
         self.runs += 1;
         *self.ends.entry(format!("{:?}", ch.end.unwrap_or(RunEnd::Finished))).or_insert(0) += 1;
         self.sim_ns += u128::from(ch.stats.max_clock_ns);
@@ -307,6 +333,7 @@ impl Stats {
     }
 
     pub fn absorb_r(&mut self, plan: &Plan, rh: &crate::reporters::RHistory) {
+        self.absorb_plan_shape(plan);
         self.runs += 1;
         *self.ends.entry(format!("{:?}", rh.end.unwrap_or(RunEnd::Finished))).or_insert(0) += 1;
         self.sim_ns += u128::from(rh.stats.max_clock_ns);
@@ -364,6 +391,7 @@ impl Stats {
     }
 
     pub fn absorb_b(&mut self, plan: &Plan, bh: &crate::runb::BHistory) {
+        self.absorb_plan_shape(plan);
         // reuse the world-A accounting over the raw stream
         let h = History {
             events: bh.raw.clone(),
